@@ -8,6 +8,8 @@ CONSTANTS
   MaxMsg = 3
   AllowHold = TRUE
   AllowBreak = TRUE
+  AllowStall = TRUE
+  Cap = 1
   AllowRemove = TRUE
   FixSenderPrune = FALSE
   FixGuardedDelete = FALSE
